@@ -241,6 +241,11 @@ func c16Explore(r *rep.Run, st *c16Stats, sc c16Scenario, bound int) (truncated 
 		}
 		info := map[string]any{"scenario": sc.name, "bound": bound, "schedule": choices}
 		if res.Panic != nil {
+			if strings.HasPrefix(fmt.Sprint(res.Panic), "vsched:") {
+				// the scheduler itself gave up (a schedule prefix did not replay): nondeterminism the
+				// harness does not own - never a verdict about the repository
+				rep.HarnessError("C16 %s schedule %v: %v", sc.name, choices, res.Panic)
+			}
 			r.Violation(rep.Violation{Fingerprint: "C16:panic:" + sc.name, Summary: fmt.Sprintf("%s schedule %v: panic %v", sc.name, choices, res.Panic), Replay: info})
 			return
 		}
